@@ -46,7 +46,7 @@ def gen_scenario(rng, cfg):
         elif k < 98:
             ops.append({"op": "notfound"})
         else:
-            ops.append({"op": "subst", "style": rng.choice(["word", "assign"])})
+            ops.append({"op": "subst", "style": rng.choice(["word", "assign"]), "spelling": rng.choice(["back", "dollar"])})
     return {"prop": "C07", "ops": ops, "handler": cfg.get("handler", False) and rng.chance(50),
             "childpark": bool(cfg.get("childpark")), "lines": []}
 
@@ -212,6 +212,11 @@ class C07Runner:
                          if m.pup is not None and self.truth_state(m) not in ("Z", "X")]
                 if not inner:
                     raise HarnessError("interactive shell blocked on a pipe: %r" % (ev,))
+                rep = inner[0].pup.rpc("pgrp").split()
+                if len(rep) >= 3 and rep[1] != rep[2]:
+                    raise Violation("tty_not_job_in_fg", "the inner command of a substitution (%s) runs in group %s while the "
+                                    "terminal belongs to group %s: it could not read the terminal" % (inner[0].name, rep[1], rep[2]))
+                self.sim.probe("substitution_inner_command_owns_the_terminal")
                 inner[0].pup.rpc("writehex 1 %s" % b"sub".hex())
                 self.member_exit(inner[0], None)
                 continue
@@ -436,9 +441,9 @@ class C07Runner:
                 self.jobs.append(job2)
                 self.pending.append(outer)
                 self.fg = None
-                line = "pup s%do a`pup s%di`b" % (o, o)
+                line = ("pup s%do a`pup s%di`b" if op.get("spelling", "back") == "back" else "pup s%do a$(pup s%di)b") % (o, o)
             else:
-                line = "XS=a`pup s%di`b" % o
+                line = ("XS=a`pup s%di`b" if op.get("spelling", "back") == "back" else "XS=a$(pup s%di)b") % o
             sim.ev("type", line)
             sim.probe("substitution_line")
             sh.type_line(line)
@@ -820,9 +825,29 @@ def signature(v):
     return preds
 
 
+def explicit_cases():
+    """a terminal hand-over that fails (the job's group has vanished: its only live member called setsid),
+    followed by ordinary job control, which must still work"""
+    out = []
+    for tail in (
+            [{"op": "launch", "bg": False, "n": 2, "codes": [0, 0, 0]}, {"op": "ctrlz"}, {"op": "jobs"}, {"op": "fg", "job": 1}],
+            [{"op": "launch", "bg": False, "n": 1, "codes": [0, 0, 0]}, {"op": "ctrlc"}, {"op": "launch", "bg": True, "n": 1, "codes": [0, 0, 0]}, {"op": "jobs"}],
+            [{"op": "subst", "style": "word", "spelling": "dollar"}, {"op": "launch", "bg": False, "n": 3, "codes": [0, 0, 0]}, {"op": "ctrlz"}, {"op": "bg", "job": 1}, {"op": "jobs"}]):
+        ops = [{"op": "launch", "bg": True, "n": 2, "codes": [0, 0, 0]},
+               {"op": "exit", "job": 0, "member": 0},       # the group leader goes
+               {"op": "empty"},
+               {"op": "detach", "job": 0},                  # the remaining member leaves group and session
+               {"op": "fg", "job": 0, "bare": False}] + tail
+        for handler in (False, True):
+            out.append({"prop": "C07", "ops": [dict(o) for o in ops], "handler": handler, "childpark": False, "lines": [],
+                        "config": "explicit_failed_handover", "adversarial_picks": 100000})
+    return out
+
+
 def run(args):
     return pbatch.run_check(
         prop="C07", args=args, runner=C07Runner, make_case=make_case, runs=TIERS[args["tier"]],
+        extra_cases=explicit_cases(),
         rule="one evaluation = one simulated interactive session on a pty: 5..25 actions from {launch fg/bg pipeline of 1..3 "
              "puppets, Ctrl-Z, Ctrl-C, fg [id], bg [id], external SIGKILL/SIGSTOP/SIGCONT/SIGTERM to a member, member exit, "
              "jobs, empty line, command not found, back-quote substitution}, the shell parked at prompt / fork / wait hooks, "
